@@ -138,3 +138,20 @@ func (l *LimitCase) UnmarshalJSON(b []byte) error {
 	*l = LimitCase(q)
 	return nil
 }
+
+type gexprPlain GExpr
+
+func (e GExpr) MarshalJSON() ([]byte, error) {
+	q := gexprPlain(e)
+	q.S = encStr(q.S)
+	return json.Marshal(q)
+}
+func (e *GExpr) UnmarshalJSON(b []byte) error {
+	var q gexprPlain
+	if err := json.Unmarshal(b, &q); err != nil {
+		return err
+	}
+	q.S = decStr(q.S)
+	*e = GExpr(q)
+	return nil
+}
